@@ -32,7 +32,8 @@ BOUNDED = {
         statement="with one broken schema: the parser terminates, schemas that do not depend on it survive, it is removed with a "
                   "diagnostic, and nothing that remains refers to a removed class",
         bound="3 models + 1 broken schema, each model with 0-2 references (property / array items / union member) to the "
-              "others incl. cycles; 2500 resp. 20000 sampled graphs x 2 kinds of breakage"),
+              "others incl. cycles, also from inside nested inline objects (depth 1 and 2); 2500 resp. 20000 sampled graphs x 2 kinds "
+              "of breakage"),
     "body_refs": dict(
         unit=P + "bodies:_resolve_reference", where="openapi_python_client/parser/bodies.py",
         statement="a chain of request body references ends in an inline body (then the endpoint has it) or is dangling/"
